@@ -633,6 +633,16 @@ class Executor:
                 return a
             if isinstance(a, Havoc) and (ckind in ("Transmute", "PtrToPtr") or ckind.startswith("PointerCoercion")):
                 return a
+            if ckind == "Transmute" and isinstance(a, VecObj) and re.match(r"^(std::vec::)?Vec<", to_ty):
+                # Vec<f64> <-> Vec<OrderedFloat<f64>> (repr(transparent) newtype): same buffer, elements re-wrapped
+                inner = to_ty[to_ty.index("<") + 1:-1]
+                def rewrap(e):
+                    if "OrderedFloat" in inner and isinstance(e, I):
+                        return Agg("struct", [e], name="OrderedFloat")
+                    if inner in INT_W and isinstance(e, Agg) and len(e.fields) == 1:
+                        return e.fields[0]
+                    return e
+                return VecObj([rewrap(e) for e in a.elems], inner, a.cap, a.is_str)
             if ckind == "Transmute":
                 if isinstance(a, I) and to_ty in INT_W and INT_W[to_ty] == a.w:
                     return I(to_ty, a.v)
